@@ -245,7 +245,7 @@ fn main() {
         "accepted chunk sizes: those for which send returns Ok".into(),
     ];
     ctx.arm("c02", 1800.0);
-    let n = ctx.volume(200, 5_000, 4, 10);
+    let n = ctx.volume(800, 8_000, 4, 10);
     ctx.run_cases("chaos+fair", n, |ctx, idx, rng| {
         let v = Variant::all()[(idx % 3) as usize];
         let moves = match ctx.tier {
@@ -254,7 +254,7 @@ fn main() {
         };
         dispatch(ctx, rng, v, |c, r| chaos::<c6::Connection>(c, r, v, moves), |c, r| chaos::<c7::Connection>(c, r, v, moves));
     });
-    let n = ctx.volume(100, 3_000, 4, 10);
+    let n = ctx.volume(400, 5_000, 4, 10);
     ctx.run_cases("largest", n, |ctx, idx, rng| {
         let v = Variant::all()[(idx % 3) as usize];
         dispatch(ctx, rng, v, |c, r| largest::<c6::Connection>(c, r, v), |c, r| largest::<c7::Connection>(c, r, v));
